@@ -458,6 +458,13 @@ class C14(F.Spec):
             want = (want | 4) if fields[b"tls"][:1] == b"1" else (want & ~4)
         if b"mau" in fields:
             want = (want & ~8) if fields[b"mau"][:1] == b"1" else (want | 8)
+        # the same reading from the Lean model (Model/FormFlags, theorem c14_flag_bits): it has to agree with the one above
+        tok = lambda k: "-" if k not in fields else ("1" if fields[k][:1] == b"1" else "0")
+        mrc, mlines, merr = C.run_lines([C.svdrv(), "form"], "flags %d %s %s %s %s\n" % (before & 0x1f, tok(b"pro"), tok(b"ret"), tok(b"tls"), tok(b"mau")))
+        mv = [int(x.split()[1]) for x in mlines if x.startswith("FLAGS ")]
+        if not mv or (mv[0] & 0x1f) != (want & 0x1f):
+            return [F.Finding("flag-model-disagrees", "the Lean model gives %s for flag bits %#x and fields %s, the monitor's reading %#x"
+                              % (mv[:1], before & 0x1f, sorted(k.decode() for k in fields), want & 0x1f))]
         if (after & 0x1f) != (want & 0x1f):
             return [F.Finding("absent-field-changed", "flag bits %#x before, request fields %s: %#x expected (a bit whose field is absent keeps "
                               "its value), %#x stored" % (before & 0x1f, sorted(k.decode() for k in fields), want & 0x1f, after & 0x1f))]
